@@ -18,6 +18,7 @@ class Models(Simd):
         R(r"^core::num::<impl (u|i)(8|16|32|64|128|size)>::(from_le_bytes|from_be_bytes)$", self.m_from_bytes)
         R(r"^core::num::<impl (u|i)(8|16|32|64|128|size)>::(leading_zeros|trailing_zeros|count_ones)$", lambda *a: I(0, 128))
         R(r"IntoIterator.*>::into_iter$|core::iter::Iterator>::by_ref$", self.m_into_iter)
+        R(r"^core::ops::RangeInclusive::<.*>::new$", self.m_range_inclusive_new)
         R(r"Iterator for core::ops::Range<\w+>>::next$|core::ops::Range<\w+> as core::iter::Iterator>::next$", self.m_range_next)
         R(r"core::iter::Rev<.*> as core::iter::Iterator>::next$|DoubleEndedIterator.*>::next_back$", self.m_iter_next)
         R(r"as core::iter::Iterator>::next$|impl core::iter::Iterator for .*>::next$", self.m_iter_next)
@@ -191,6 +192,13 @@ class Models(Simd):
             return ("it", "vals", v, I(0), I(len(v[1])))
         if v[0] == "vec":
             return ("it", "vecvals", v)
+        return TOP
+
+    def m_range_inclusive_new(self, ip, fv, st, depth, t, n, a, dty):
+        # a..=b iterates exactly like a..b+1 (abstract integers are unbounded, so b+1 never wraps here)
+        s, e = ip.deconst(a[0]), ip.deconst(a[1])
+        if s is not None and e is not None and s[0] == "i" and e[0] == "i":
+            return ("it", "range", s, I(e[1] + 1, e[2] + 1), 0)
         return TOP
 
     def slice_iter_of(self, ip, st, v):
